@@ -21,7 +21,7 @@ sys.path.insert(0, os.path.dirname(os.path.dirname(os.path.abspath(__file__))))
 from sim import env  # noqa: E402
 
 TIERS = {
-    'quick': {'runs': 8000, 'det': 64, 'min_budget': 200},
+    'quick': {'runs': 8000, 'runs_C06': 6000, 'det': 64, 'min_budget': 200},
     'thorough': {'runs': 200000, 'det': 2000, 'min_budget': 400},
 }
 PROBE_NAMES = [
@@ -184,7 +184,7 @@ def main():
 
 def run_check(args, prop, t0):
     tier = TIERS[args.tier]
-    n_runs = args.runs or tier['runs']
+    n_runs = args.runs or tier.get('runs_' + prop, tier['runs'])
     base = int(os.environ.get('VERIF_SEED', '0')) * 10000000
     seeds = list(range(base, base + n_runs))
     jobs = args.jobs
